@@ -99,9 +99,80 @@ func genTwoCustom01(g *Rng) c01Case {
 	return c
 }
 
-func genCase01(g *Rng) c01Case {
+// genBuiltinRestore01: default -> custom -> explicit-version histories on BUILT-IN kinds. An earlier default build
+// parses the built-in schema; a later build installs a custom schema that REDEFINES a built-in definition
+// (apps/v1 Deployment, containers list without merge key) and loads it; T names the built-in version explicitly, has
+// no custom schema, and patches a Deployment's containers (keyed list). Selecting the built-in version re-parses the
+// built-in schema, which must restore the overwritten definition: T's list is merged by `name` whatever ran before.
+// (A state such as "default schema already parsed" that survives Run and suppresses the re-parse leaves the custom
+// definition in place: T's un-patched container is silently dropped.)
+func genBuiltinRestore01(g *Rng) c01Case {
+	c := c01Case{}
+	var s1 c16Schema
+	for i := 0; i < 400; i++ {
+		s1 = genSchema16(g.Fork(), 1)
+		ok := false
+		for _, d := range s1.Defs {
+			for _, t := range d.Tms {
+				if t.Kind == "Deployment" && !d.Mk {
+					ok = true
+				}
+			}
+		}
+		if s1.Valid && ok {
+			break
+		}
+	}
+	c.Schemas = []c16Schema{s1}
 	if g.Chance(30) {
+		c.Schemas = append(c.Schemas, genSchema16(g.Fork(), 2))
+	}
+	dflt := func(name string) *c16Tree {
+		t := &c16Tree{Schema: -1, BaseSchema: -1, Namespace: g.Chance(70),
+			Res: []c16Res{{Kind: "Deployment", Name: name}}, Patches: []string{name}}
+		if g.Chance(40) {
+			t.Res = append(t.Res, c16Res{Kind: g.Pick([]string{"ConfigMap", "Foo"}), Name: name + "x"})
+		}
+		return t
+	}
+	custom := &c16Tree{Schema: 0, BaseSchema: -1, Namespace: g.Chance(70),
+		Res: []c16Res{{Kind: "Deployment", Name: "hc"}}, Patches: []string{"hc"}}
+	// the three-step shape, with optional random builds in between; sometimes a step is left out or reordered
+	steps := []*c16Tree{}
+	if g.Chance(85) {
+		steps = append(steps, dflt("hd"))
+	}
+	if g.Chance(35) {
+		steps = append(steps, genTree16(g.Fork(), len(c.Schemas), g.Chance(50)))
+	}
+	if g.Chance(90) {
+		steps = append(steps, custom)
+	}
+	if g.Chance(25) {
+		steps = append(steps, genTree16(g.Fork(), len(c.Schemas), g.Chance(50)))
+	}
+	if g.Chance(15) && len(steps) > 1 {
+		steps[0], steps[len(steps)-1] = steps[len(steps)-1], steps[0]
+	}
+	c.H = steps
+	c.T = dflt("tq")
+	switch g.Intn(10) {
+	case 0:
+		// T without an openapi field: customSchema survives SetSchema (known leak class)
+	case 1:
+		c.T.Ver = strp("")
+	default:
+		c.T.Ver = strp("v1.21.2")
+	}
+	return c
+}
+
+func genCase01(g *Rng) c01Case {
+	switch x := g.Intn(100); {
+	case x < 25:
 		return genTwoCustom01(g.Fork())
+	case x < 50:
+		return genBuiltinRestore01(g.Fork())
 	}
 	c := c01Case{}
 	ns := g.Intn(3)
@@ -246,6 +317,35 @@ func evalCase01(c c01Case, res []c16SeqRes) c01Obs {
 	}
 	ownSchema("alone", alone)
 	ownSchema("after H", after)
+	// a build that names the built-in version explicitly and has no custom schema re-selects the built-in schema:
+	// SetSchema drops any custom schema and re-arms initSchema, which parses the built-in document again, so a patched
+	// Deployment's containers list is merged by its built-in merge key — whatever ran before
+	builtinKey := func(which string, st c16Step) {
+		if st.Class != ClsOk || c.T.Schema >= 0 || c.T.Ver == nil || *c.T.Ver != "v1.21.2" {
+			return
+		}
+		_, listLen, err := c16Reveal(st.Out)
+		if err != nil {
+			return
+		}
+		for _, p := range c.T.Patches {
+			res, ok := c.T.find(p)
+			if !ok || res.Kind != "Deployment" {
+				continue
+			}
+			if n, have := listLen[res.Name]; have && n != 2 {
+				o.Problems = append(o.Problems, OracleViolation{Law: "explicit_builtin_version_restores_builtin_schema",
+					Class: "C01/builtin-merge-key-lost-under-explicit-version",
+					Detail: fmt.Sprintf("T (%s) names the built-in version and has no custom schema, but the containers list of Deployment %s was not merged by name (%d element(s)): the un-patched container is dropped\n%s",
+						which, res.Name, n, st.Out), Replay: c})
+			}
+		}
+	}
+	builtinKey("alone", alone)
+	builtinKey("after H", after)
+	for _, a := range afterReps {
+		builtinKey("after H, repetition", a)
+	}
 	customInH := false
 	for _, h := range c.H {
 		if c01HasCustom(h) {
@@ -342,6 +442,17 @@ func runC01S(r *Run, rng *Rng, tier string) error {
 			}
 		}
 		r.Count("distinct_custom_schemas_installed", fmt.Sprint(len(nCustom)))
+		shape := []string{}
+		for _, h := range c.H {
+			shape = append(shape, c16FieldKind(h.Ver, h.Schema))
+		}
+		if len(shape) > 3 {
+			shape = shape[len(shape)-3:]
+		}
+		r.Count("T_field", c16FieldKind(c.T.Ver, c.T.Schema))
+		if c.T.Ver != nil && *c.T.Ver == "v1.21.2" && c.T.Schema < 0 {
+			r.Count("history_before_explicit_T", strings.Join(shape, ">"))
+		}
 		for _, p := range o.Problems {
 			r.Violation(p)
 		}
